@@ -98,6 +98,7 @@ def judge_decode(ctx, name, text, origin):
     if name == "compass":
         cls = "any"  # the hand-written compass parser: one mechanism per failure kind, whatever the text class
     ctx.case([name, text], nontrivial=True)
+    ctx.current_case = w
     try:
         p = decode(text)
     except ValueError:
@@ -131,6 +132,9 @@ def judge_decode(ctx, name, text, origin):
         ctx.violation(f"malformed-problem:{type(e).__name__}:{name}:{cls}", f"returned object is not a problem of the module's format: {e!r}", w)
         return
     # re-encodable, and canonical text decodes to the same problem
+    if m is not None and int(m[2]) * int(m[3]) > 100000:
+        ctx.count("c17.reencode_skipped_huge_board")  # sparse formats (compass) accept boards of 10^7 cells from a 50-character text
+        return
     ctx.count("c17.reencode_checked")
     try:
         url2 = encode(p)
@@ -171,6 +175,11 @@ def valid_urls(rng):
 def mutate(rng, url, others):
     k = rng.random()
     m = URL_RE.match(url)
+    if rng.random() < 0.10 and url:
+        # what int() tolerates but the URL grammar does not: signs, underscores, blanks, full-width digits inside numbers
+        i = rng.randrange(max(len(url) - 12, 0), len(url) + 1) if rng.random() < 0.7 else rng.randrange(len(url) + 1)
+        tok = rng.choice(["--1", "-+1", "+-12", "+ 12", "-_1", "-1_", "+1_0", "- 1", "-\u00a01", "-１0", "+００1", "-0x", "+0x1", "--", "++", "-", "+"])
+        return url[:i] + tok + url[i + (len(tok) if rng.random() < 0.5 else 0):]
     if k < 0.12 and len(url) > 1:
         return url[:rng.randrange(len(url))]
     if k < 0.24 and url:
@@ -271,7 +280,7 @@ def combinators_direct(ctx, rng, n):
 def run(ctx):
     rng = ctx.rng
     thorough = ctx.tier == "thorough"
-    rounds = 25 if not thorough else 1500
+    rounds = 80 if not thorough else 2500
     for t in range(rounds):
         urls = valid_urls(rng)
         allu = list(urls.values())
